@@ -20,6 +20,8 @@ import (
 	"github.com/xelaj/mtproto/verifharness/term"
 )
 
+var seqSame bool
+
 func srpPassword(class string, rng *rand.Rand) string {
 	switch class {
 	case "multibyte":
@@ -65,11 +67,17 @@ func init() {
 				pwClass = "ascii"
 			}
 			password := srpPassword(pwClass, rng)
+			if seqSame { // the sequential tail: one password, salts by length only
+				password = "one and the same password"
+			}
 			s1n, s2n := c.Int("salt1"), c.Int("salt2")
 			if c.Kind != "right-and-wrong" {
 				s1n, s2n = 8, 8
 			}
 			salt1, salt2 := randBytes(rng, s1n), randBytes(rng, s2n)
+			if seqSame {
+				salt1 = bytes.Repeat([]byte{0x5a}, s1n) // equal first salts for equal lengths; the second salt differs from case to case
+			}
 			pBytes := pBytes
 			if idx%2 == 1 {
 				// the parameters as one decoder would hand them over: slices of one buffer, each with the others behind it
@@ -216,6 +224,9 @@ func init() {
 			if ok, why := check(password); !ok {
 				disagree("C18:right-password-rejected:"+cls, "the server side of the specification rejects the answer for the right password "+why, info)
 			}
+			if seqSame { // nothing between this computation and the next one with the same password and first salt
+				return nil
+			}
 			other := password + "x"
 			if rng.Intn(2) == 0 {
 				other = strings.ToUpper(password)
@@ -242,6 +253,23 @@ func init() {
 			}(i, raw)
 		}
 		wg.Wait()
+		// one account after another in one process, the computations one at a time: the same password and first salt with
+		// another second salt (and back), another password with the same salts - nothing is carried over from a
+		// computation to the next
+		seqSame = true
+		for round := 0; round < 2; round++ {
+			for i, raw := range raws {
+				var probe struct {
+					Kind   string `json:"kind"`
+					Corner string `json:"corner"`
+					Pw     string `json:"pw"`
+				}
+				json.Unmarshal(raw, &probe)
+				if probe.Kind == "right-and-wrong" && probe.Corner == "none" && probe.Pw == "ascii" {
+					must(one(i, raw))
+				}
+			}
+		}
 		rep.Distinct = rep.Evaluations
 		rep.Emit()
 	}
